@@ -274,3 +274,52 @@ func embedLits(v any, em embedding) any {
 	}
 	return v
 }
+
+// C06 at volume. DISTINCT keeps the first occurrence of every distinct row (DistinctLaw: Len(Dis) = Cardinality(Range(Sel))):
+// whether the engine's fingerprints keep different rows apart can only show among very many rows. A table of n pairwise
+// different rows, each given twice, must come back as those n rows in first-occurrence order - with one and with two
+// columns, and through UNION.
+func init() {
+	Drivers["C06:volume"] = func(emit func(Verdict)) {
+		n := 700000
+		if Tier == "thorough" {
+			n = 1500000
+		}
+		one, two := make([]any, 0, 2*n), make([]any, 0, 2*n)
+		for rep := 0; rep < 2; rep++ {
+			for i := 0; i < n; i++ {
+				one = append(one, map[string]any{"id": float64(i)})
+				two = append(two, map[string]any{"a": float64(i % 1000), "b": float64(i / 1000)})
+			}
+		}
+		for _, tc := range []struct {
+			name, sql string
+			doc       map[string]any
+			first     func(i int) map[string]any
+		}{
+			{"one column", "SELECT DISTINCT id FROM t", map[string]any{"t": one}, func(i int) map[string]any { return map[string]any{"id": float64(i)} }},
+			{"two columns", "SELECT DISTINCT a, b FROM t", map[string]any{"t": two}, func(i int) map[string]any {
+				return map[string]any{"a": float64(i % 1000), "b": float64(i / 1000)}
+			}},
+			{"union", "SELECT id FROM t UNION SELECT id FROM t", map[string]any{"t": one[:n]}, func(i int) map[string]any { return map[string]any{"id": float64(i)} }},
+		} {
+			sig := []string{"volume", "distinct", tc.name}
+			v := Verdict{OK: true, SQL: tc.sql, Sig: sig, Execs: 1, Nontrivial: true}
+			out := Run(tc.doc, tc.sql, false)
+			if out.Panic != nil || out.Err != nil {
+				v = fail("result", tc.sql, sig, "%d distinct rows: %s", n, out.Describe())
+			} else if len(out.Rows) != n {
+				v = fail("result", tc.sql, sig, "%d pairwise different rows, each given twice: %d rows come back", n, len(out.Rows))
+			} else {
+				for i := 0; i < n; i++ {
+					if !Equal(out.Rows[i], any(tc.first(i))) {
+						v = fail("result", tc.sql, sig, "row %d: want %s got %s", i, Canon(any(tc.first(i))), Canon(out.Rows[i]))
+						break
+					}
+				}
+			}
+			v.Key, v.Case = tc.name, Node{"sql": tc.sql, "n": n}
+			emit(v)
+		}
+	}
+}
